@@ -16,7 +16,7 @@ RULE = ("G-int arrangements (as C04) with 1-19 distinct kernel names per type, n
         "with that name. Non-trivial: >= 2 analysed types overlapping in time, or more names than num_kernels. Distinct = hash of "
         "files + parameters.")
 ASSUMPTIONS = ["no kernel is literally named 'others'", "total analysed busy time > 0 (percentages)", "type by the documented name rules"]
-PLAN = {"quick": {"shards": 16, "cases": 400, "timeout": 600}, "thorough": {"shards": 16, "cases": 8000, "timeout": 3000}}
+PLAN = {"quick": {"shards": 16, "cases": 640, "timeout": 600}, "thorough": {"shards": 16, "cases": 8000, "timeout": 3000}}
 FLOORS = {"quick": {"distinct_nontrivial": 150, "type_tables": 350, "per_type_groups": 1200, "named_rows_judged": 2000, "others_rows": 150,
                     "combo_rows_multi": 150, "annotation_breakdowns": 100, "annotation_rows_judged": 300},
           "thorough": {"distinct_nontrivial": 3000, "type_tables": 7000, "per_type_groups": 24000, "named_rows_judged": 40000, "others_rows": 3000,
